@@ -184,11 +184,16 @@ def build_found_rule(rng, decoded, features=None, sections=None, binary=False):
             nfiles = rng.randrange(1, 3)
             split = [[] for _ in range(nfiles)]
             keep = []
-            for m in macros_infile:
-                c = rng.randrange(nfiles + 1)
-                (keep if c == nfiles else split[c]).append(m)
-            if not any(split):
-                split[0], keep = keep, []
+            if rng.random() < 0.4:
+                # every definition comes from one command-line file: the rule has no macros section
+                nfiles = 1
+                split = [list(macros_infile)]
+            else:
+                for m in macros_infile:
+                    c = rng.randrange(nfiles + 1)
+                    (keep if c == nfiles else split[c]).append(m)
+                if not any(split):
+                    split[0], keep = keep, []
             for fi, ms in enumerate(split):
                 rel = f"macros/m{fi}.yaml"
                 # an unrelated definition so that the file is never empty of macros
@@ -222,7 +227,14 @@ def build_found_rule(rng, decoded, features=None, sections=None, binary=False):
     doc["pattern"] = items
     if cfg and rng.random() < 0.3:  # key order of the document is free
         doc = {"pattern": doc.pop("pattern"), **doc}
-    info = {"window": [w[0] for w in win], "features": sorted(features), "n_items": len(items)}
+    win_ops = []
+    for (_a, _mn, ops) in win:
+        for o in ops:
+            pat_o = gen.operand_pattern(rng, o, substr_ok=False)
+            if isinstance(pat_o, str) and pat_o not in win_ops:
+                win_ops.append(pat_o)
+    info = {"window": [w[0] for w in win], "features": sorted(features), "n_items": len(items),
+            "win_mn": sorted({w[1] for w in win if gen._SAFE.match(w[1])}), "win_ops": win_ops[:8]}
     return doc, macro_files, macros_arg, info
 
 
@@ -283,7 +295,7 @@ def _is_instr_item_pos(path):
     return True
 
 
-def doc_faults(rng, rule_doc, macro_files, rule_rel="rule.yaml", max_per_kind=6):
+def doc_faults(rng, rule_doc, macro_files, rule_rel="rule.yaml", max_per_kind=6, hints=None):
     """Every applicable single edit: list of dict(label, target, content[str], klass).
 
     `target` is the file the faulted document is delivered for (the rule or a macro file)."""
@@ -381,6 +393,14 @@ def doc_faults(rng, rule_doc, macro_files, rule_rel="rule.yaml", max_per_kind=6)
                 if room(f"not_arity:{k}:{level}"):
                     extra = [copy.deepcopy(child) for _ in range(k - 1)]
                     add(f"not_arity:{k}:{level}@{_p(path)}", _edit(rule_doc, path + ("$not",), [copy.deepcopy(child)] + extra), klass="not_arity")
+            # extra arguments that name what the window really contains: an implementation that
+            # invents a meaning for them ("none of these", "the last one") flips the verdict
+            names = list((hints or {}).get("win_mn" if level == "ins" else "win_ops") or [])
+            if names:
+                if room(f"not_arity:n_after:{level}"):
+                    add(f"not_arity:n_after:{level}@{_p(path)}", _edit(rule_doc, path + ("$not",), [copy.deepcopy(child)] + names), klass="not_arity")
+                if room(f"not_arity:n_before:{level}"):
+                    add(f"not_arity:n_before:{level}@{_p(path)}", _edit(rule_doc, path + ("$not",), names + [copy.deepcopy(child)]), klass="not_arity")
         if "$deref" in node and isinstance(node["$deref"], dict):
             dd = dict(node["$deref"])
             dd.pop("main_reg", None)
